@@ -44,6 +44,23 @@ func genC06(t *rapid.T) *c06Case {
 		c.Opts.Method = rapid.IntRange(3, 6).Draw(t, "parMethod")
 		c.Opts.TargetSize, c.Opts.TargetPSNRBits = 0, 0
 	}
+	if v := rapid.IntRange(0, 79).Draw(t, "large"); v >= 41 && v <= 44 {
+		// >= 510 macroblocks: rounded segment-tree and skip probabilities saturate (255) while a handful of
+		// blocks still sit on the other branch; one texture with a few outlier blocks makes such maps
+		c.Img.W = rapid.IntRange(400, 640).Draw(t, "largeW")
+		c.Img.H = rapid.IntRange(336, 640).Draw(t, "largeH")
+		c.Img.Content = rapid.SampledFrom([]string{"outlier", "outlier", "outlier", "sparse", "regions"}).Draw(t, "largeContent")
+		c.Img.Kind, c.Img.Place, c.Img.OX, c.Img.OY = "nrgba", "tight", 0, 0
+		c.Img.Pix = gen.RenderContent(c.Img.W, c.Img.H, c.Img.Content, c.Img.Alpha, c.Img.Garbage)
+		c.Opts.Segments = rapid.SampledFrom([]int{2, 2, 2, 3, 4}).Draw(t, "largeSegments")
+		if c.Opts.SNSStrength == 0 && rapid.IntRange(0, 3).Draw(t, "largeSNS") > 0 {
+			c.Opts.SNSStrength = rapid.IntRange(1, 100).Draw(t, "largeSNSv")
+		}
+		c.Opts.TargetSize, c.Opts.TargetPSNRBits = 0, 0
+		if c.Opts.Pass > 3 {
+			c.Opts.Pass = 3
+		}
+	}
 	return c
 }
 
